@@ -499,6 +499,21 @@ class Executor:
                 return k
             if attr == '__dict__':
                 return obj.fields
+            if obj.cls_set is not None and len(obj.cls_set) > 1 and not attr.startswith('__'):
+                # the object is of one of several classes and they differ in this attribute: case split on the class (sound: every class is explored)
+                import inspect as _insp
+                raws = [_insp.getattr_static(c, attr, _MISSING) for c in obj.cls_set]
+                if any(r is not raws[0] for r in raws):
+                    classes = sorted(obj.cls_set, key=lambda c: c.__name__)
+                    j = self.choose(len(classes), f'class({obj.label})', [c.__name__ for c in classes])
+                    old_set = obj.cls_set
+                    obj.cls_set = frozenset({classes[j]})
+                    self.push_undo(lambda: setattr(obj, 'cls_set', old_set))
+            if obj.cls_set is not None and len(obj.cls_set) == 1 and not attr.startswith('__'):
+                (c1,) = tuple(obj.cls_set)
+                if not hasattr(c1, attr) and not getattr(obj, 'subclass_ok', False) and not self._instance_attr_possible(c1, attr):
+                    # neither the class nor any method of it ever defines the attribute
+                    raise SymRaise(AttributeError, (f"'{c1.__name__}' object has no attribute '{attr}'",), origin=self.where(node))
             if obj.cls_set is not None:
                 vals = []
                 for c in obj.cls_set:
@@ -577,6 +592,34 @@ class Executor:
             return v
         except AttributeError:
             raise SymRaise(AttributeError, (f'{obj!r}.{attr}',), origin=self.where(node))
+
+    def _instance_attr_possible(self, K, attr):
+        """can an instance of K have the attribute although the class does not define it?  True unless K is a builtin scalar / container class or the
+        source of every class in K's MRO is available and never stores `<x>.attr` / uses setattr / defines __getattr__ / __slots__-less dynamic tricks"""
+        if K in (str, int, bool, float, type(None), list, dict, tuple, set, frozenset, bytes):
+            return False
+        cache = self.__dict__.setdefault('_inst_attr_cache', {})
+        if K not in cache:
+            import inspect as _inspect, textwrap as _tw
+            names, open_ = set(), False
+            for k in K.__mro__:
+                if k is object:
+                    continue
+                if '__getattr__' in k.__dict__ or '__getattribute__' in k.__dict__:
+                    open_ = True
+                try:
+                    tree = ast.parse(_tw.dedent(_inspect.getsource(k)))
+                except Exception:
+                    open_ = True
+                    continue
+                for n in ast.walk(tree):
+                    if isinstance(n, ast.Attribute) and isinstance(n.ctx, ast.Store):
+                        names.add(n.attr)
+                    if isinstance(n, ast.Call) and isinstance(n.func, ast.Name) and n.func.id in ('setattr', 'vars') or isinstance(n, ast.Attribute) and n.attr == '__dict__':
+                        open_ = True
+            cache[K] = (names, open_)
+        names, open_ = cache[K]
+        return open_ or attr in names
 
     def _init_default(self, K, attr):
         """value of an instance attribute that __init__ sets to a literal or to a parameter with a literal default (an option nobody passes)"""
